@@ -129,6 +129,60 @@ def faults(res, ctx, rng):
                     res.count('faults_first_record_undecoded')
 
 
+def faults_under_other_tables(res, ctx, rng):
+    """"... when the tool decodes that record's kind" is a statement about the code table in use and the parser's decoder
+    table: under a supplied table that does not name the real-fault record's id (an older or trimmed table), names it with a
+    name no decoder handles, or on a parser whose decoder for it was removed, the record is one the tool does not decode -
+    it gets no trace of its own, and the page fault carries neither its pid nor its protection (a later record of a kind
+    that IS decoded may supply them, as for the purgeable kind under the bundled table)."""
+    bundled = dict(ev.bundled_codes())
+    n2i = ev.name2ids()
+    for kind in sorted(DECODED):
+        name = H.REAL_FAULT[kind]
+        rid = n2i[name][0]
+        for how in ('id removed from the table', 'id named with an undecoded name', 'decoder removed from the parser'):
+            for second in (None,) + tuple(sorted(DECODED - {kind})):
+                for rep in range(ctx.pick(2, 12)):
+                    pid, prot = rng.choice((0, 1, 77, (1 << 32) - 1)), rng.randrange(256)
+                    recs = [(kind, rng.getrandbits(40), prot, rng.randrange(1, 12), pid)]
+                    if second:
+                        recs.append((second, rng.getrandbits(40), rng.randrange(256), rng.randrange(1, 12), rng.randrange(1, 999)))
+                    seq = H.page_fault(rng.getrandbits(44), 0, 0, rng.randrange(1, 12),
+                                       with_noise(rng, [H.real_fault(k, va, pr, ft, pd) for k, va, pr, ft, pd in recs]))
+                    table = dict(bundled)
+                    if how == 'id removed from the table':
+                        del table[rid]
+                    elif how == 'id named with an undecoded name':
+                        table[rid] = 'VM_SOMETHING_THE_TOOL_HAS_NO_DECODER_FOR'
+                    parser = ev.new_parser(table)
+                    if how == 'decoder removed from the parser':
+                        parser.handlers = {k: v for k, v in parser.handlers.items() if k != name}
+                    case = {'events': [[c, q, list(p) if not isinstance(p, bytes) else p] for c, q, p in seq], 'how': how}
+                    label = f'page fault whose first nested record is {name}, {how}' + (f', followed by a {second} record' if second else '')
+                    try:
+                        traces = [t for t in (parser.feed(e) for e in H.materialize(H.on_thread(8, seq))) if t is not None]
+                    except Exception as x:
+                        res.violation(f'c20-fault-raises-{core.exc_name(x)}', f'{label}: {x!r}', case)
+                        continue
+                    res.case(('fault-under-other-table', kind, how, second, rep))
+                    res.count('fault_windows_under_other_tables')
+                    vm = [t for t in traces if type(t).__name__ == 'MachVmfault']
+                    own = [t for t in traces if type(t).__name__ == name]
+                    if len(vm) != 1 or own:
+                        res.violation('c20-fault-count', f'{label}: {len(vm)} page-fault traces, {len(own)} traces of the record '
+                                      f'the tool does not decode', case)
+                        continue
+                    t = vm[0]
+                    got = None if t.pid is None and t.caller_prot is None else (t.pid, prot_value(t.caller_prot or []))
+                    later = [(r[4], r[2]) for r in recs[1:]]
+                    if got is not None and got not in later:
+                        res.violation('c20-fault-pid-prot-of-an-undecoded-record', f'{label}: the trace carries pid/protection {got} '
+                                      f'({str(t)!r}) although the tool does not decode that record', case)
+                        continue
+                    if got is None and ('vm_prot' in str(t) or 'pid:' in str(t)):
+                        res.violation('c20-fault-text', f'{label}: {str(t)!r}', case)
+
+
 def orphan_parts(res, ctx, rng):
     """Parts of composites outside any window (a real-fault record without its page fault, an image record without a
     launch, sample parts without a sampler): they decode on their own and leave nothing behind for later windows -
@@ -351,6 +405,8 @@ def run(ctx):
     H.set_clock(random.Random(ctx.seed * 7919 + ctx.shard))      # coarse time base: records may share a tick
     rng = ctx.rng
     faults(res, ctx, rng)
+    if ctx.shard % 4 == 1 or ctx.nshards == 1:
+        faults_under_other_tables(res, ctx, rng)
     launches(res, ctx, rng)
     launch_streams(res, ctx, rng)
     samplers(res, ctx, rng)
@@ -366,6 +422,7 @@ def run(ctx):
                         'decoded record) is accepted', 'with a non-zero result pid/protection may be absent']
     res.require('faults_compared', 50)
     res.require('faults_first_record_undecoded', 1)
+    res.require('fault_windows_under_other_tables', 50)
     res.require('launches_compared', 20)
     res.require('launches_with_address_ties', 1)
     res.require('samplers_compared', 50)
